@@ -1,5 +1,7 @@
 // C01-O3 / C02 / C06-P1: demandRule from every scanned state.
 #include "eng.h"
+static RuleInfo* g_dep;
+extern "C" RuleInfo* stub_getRuleInfoForKeyType(BuildEngineImpl* impl, const KeyType* key) { return g_dep; }
 extern "C" void harness_demand(void) {
   uint64_t E = nondet_u64(); VF_ASSUME(E >= 1);
   BuildEngineImpl* impl = newEngine(E);
@@ -16,7 +18,7 @@ extern "C" void harness_demand(void) {
   if (st == 2 || st == 3) VF_ASSUME(B < E);             // a scan decision is only made for a rule not yet complete in this build
   TaskInfo* pre = nullptr;
   if (st == 4 || st == 5) { pre = new TaskInfo(new HTask); pre->forRuleInfo = &ri; ri.setPendingTaskInfo(pre); }
-  HTask* T = new HTask; g_nextTask = T;
+  HTask* T = new HTask; g_nextTask = T; T->requestInPrior = nondet_bool(); g_dep = &newRuleInfo(48, 0);
   uint64_t sig0 = ri.result.signature.value;
   bool r = impl->demandRule(ri);
   vf_observe(r); vf_observe((uint64_t)ri.state);
@@ -34,7 +36,10 @@ extern "C" void harness_demand(void) {
     bool prior = B != 0 && sig0 == ruleSig;
     VF_ASSERT(T->nev == (prior ? 2 : 1) && T->ev[0] == EV_START, "start is the first callback, exactly once");
     if (prior) VF_ASSERT(T->ev[1] == EV_PRIOR && T->evVal[1] == oldVal, "the prior value follows start iff the rule was built before with the same signature");
-    VF_ASSERT(impl->readyTaskInfos.size() == 1 && impl->readyTaskInfos.front() == ri.getPendingTaskInfo(), "a task without requests is ready at once, queued once");
+    bool requested = prior && T->requestInPrior;
+    if (!requested) VF_ASSERT(impl->readyTaskInfos.size() == 1 && impl->readyTaskInfos.front() == ri.getPendingTaskInfo() && ri.getPendingTaskInfo()->waitCount == 0, "a task without requests is ready at once, queued once");
+    else VF_ASSERT(impl->readyTaskInfos.empty() && ri.getPendingTaskInfo()->waitCount == 1 && impl->inputRequests.size() == 1 && impl->inputRequests.front().taskInfo == ri.getPendingTaskInfo() && impl->inputRequests.front().inputID == 3,
+                   "a task that asked for an input (also while receiving its prior value) is not ready: inputs-available must wait for that input");
   }
   VF_WITNESS();
 }
